@@ -589,6 +589,43 @@ func opRt(a []*sx) string {
 	return fmt.Sprintf("%s (ok %d %s) (ok %d %s)", sz, wn, hexs(string(buf[:wn])), dn, dumpStr(q.Elem()))
 }
 
+// opHop: hop TYPE HEX -- decode into a fresh destination, then re-encode it
+func opHop(a []*sx) string {
+	p, err := mkDst(a[0].atom, &sx{atom: "fresh"})
+	if err != nil {
+		return "(harness-error " + hexs(err.Error()) + ")"
+	}
+	in := []byte{}
+	if a[1].atom != "-" {
+		in, err = hex.DecodeString(a[1].atom)
+		if err != nil {
+			return "(harness-error " + hexs(err.Error()) + ")"
+		}
+	}
+	buf := make([]byte, len(in))
+	copy(buf, in)
+	n, es := safeDec(buf, p.Interface())
+	if es != "" {
+		return es
+	}
+	out := fmt.Sprintf("(ok %d %s)", n, dumpStr(p.Elem()))
+	sz := safeSize(p.Interface())
+	out += " " + sz
+	if !strings.HasPrefix(sz, "(size ") {
+		return out
+	}
+	m, _ := strconv.Atoi(strings.TrimSuffix(strings.TrimPrefix(sz, "(size "), ")"))
+	if m < 0 || m > 1<<28 {
+		return out + " (harness-error -)"
+	}
+	ob := make([]byte, m)
+	wn, es2 := safeEnc(ob, p.Interface())
+	if es2 != "" {
+		return out + " " + es2
+	}
+	return out + fmt.Sprintf(" (ok %d %s)", wn, hexs(string(ob[:wn])))
+}
+
 func dispatch(op string, a []*sx) (res string) {
 	defer func() {
 		if r := recover(); r != nil {
@@ -604,6 +641,8 @@ func dispatch(op string, a []*sx) (res string) {
 		return opDec(a)
 	case "rt":
 		return opRt(a)
+	case "hop":
+		return opHop(a)
 	case "gc":
 		runtime.GC()
 		return "(ok)"
